@@ -18,6 +18,16 @@ where
         new_state: CoroutineState<Yield, Return>,
     ) -> CoroutineState<Yield, Return> {
         let old_state = self.state.replace(new_state);
+        #[cfg(open_coroutine_verif)]
+        crate::common::verif::emit(|| {
+            format!(
+                r#""ev":"chg","id":{},"name":{:?},"old":{:?},"new":{:?}"#,
+                self.id,
+                self.name(),
+                format!("{old_state:?}"),
+                format!("{new_state:?}")
+            )
+        });
         self.on_state_changed(self, old_state, new_state);
         if let CoroutineState::Error(_) = new_state {
             error!("{} {:?}->{:?}", self.name(), old_state, new_state);
